@@ -189,3 +189,18 @@ package actionlint
 //@ func (*RuleAction).checkLocalAction$1
 //@   props C16
 //@   ensures nlfree(result)
+
+// C16: the snippet of a diagnostic is its source line, and the caret line is added exactly when the column lies
+// on the line or directly behind its last character - the same condition in the template fields and in the
+// pretty printer. hasline / lineof name what getLine finds (it reads nothing but the source and the line number).
+//@ spec hasline(src: []byte, n: int): bool
+//@ spec lineof(src: []byte, n: int): string
+//@ func (*Error).getLine
+//@   ensures result1 == hasline(source, e.Line) && (result1 ==> result0 == lineof(source, e.Line))
+//@   trusted hasline / lineof are the names of this function's results
+//@ func (*Error).GetTemplateFields
+//@   props C16
+//@   body_calls (*Error).getIndicator iff len(source) > 0 && e.Line > 0 && hasline(source, e.Line) && len(lineof(source, e.Line)) >= e.Column - 1
+//@ func (*Error).PrettyPrint
+//@   props C16
+//@   body_calls (*Error).getIndicator iff len(source) > 0 && e.Line > 0 && hasline(source, e.Line) && len(lineof(source, e.Line)) >= e.Column - 1
